@@ -80,11 +80,15 @@ theorem CompPost.of_det {s sD s' : State} {tid : Nat} {t : Task} (hd : DetPost s
 
 
 set_option maxHeartbeats 800000 in
-theorem complete_spec {exo} {h : Hints} {s : State} {tid : Nat} {r : Resp} {bw : Bool}
+theorem complete_spec' {exo} {h : Hints} {s : State} {tid : Nat} {r : Resp} {bw : Bool}
     (hI : InvX (fun _ => False) exo s) (hex : (alookup tid s.tasks).isSome = true) :
     wp (complete h s tid r bw) (fun s' => InvX (fun _ => False) exo s' ∧ CompPost s tid s' ∧
       ((bw = false ∨ h.retry = false ∨ (r.code = cOK ∧ r.exit = 0)) → TDone s' tid) ∧
-      (¬ (r.code = cOK ∧ r.exit = 0) → s'.nextTask = s.nextTask ∧ s'.nextOp = s.nextOp)) := by
+      (¬ (r.code = cOK ∧ r.exit = 0) → s'.nextTask = s.nextTask ∧ s'.nextOp = s.nextOp) ∧
+      (bw = true → h.retry = true → ¬ (r.code = cOK ∧ r.exit = 0) →
+        ∀ t, alookup tid s.tasks = some t → t.response = none →
+          ∃ t', alookup tid s'.tasks = some t' ∧ t'.learner = some s.nextLearner ∧
+            t'.scq = largestScq s t.scq ∧ t'.response = none)) := by
   rw [complete_eq]
   cases ht : alookup tid s.tasks with
   | none => rw [ht] at hex; cases hex
@@ -93,7 +97,9 @@ theorem complete_spec {exo} {h : Hints} {s : State} {tid : Nat} {r : Resp} {bw :
     by_cases hr : t.response.isSome = true
     · simp only [hr, if_true, wp_pure]
       have hd : TDone s tid := by intro t' ht'; rw [ht] at ht'; cases ht'; exact hr
-      exact ⟨hI, CompPost.refl s tid hd, fun _ => hd, by simp⟩
+      refine ⟨hI, CompPost.refl s tid hd, fun _ => hd, by simp, ?_⟩
+      intro _ _ _ t' ht' hr'
+      cases ht'; rw [hr'] at hr; simp at hr
     · rw [if_neg hr]
       have hr' : t.response = none := by simpa using hr
       obtain ⟨l, hl⟩ : ∃ l, t.learner = some l := by
@@ -127,7 +133,7 @@ theorem complete_spec {exo} {h : Hints} {s : State} {tid : Nat} {r : Resp} {bw :
           completeOk_setTask _ _ _ _ _ _ rfl] at this
         refine wp_mono this ?_
         intro s' ⟨hI', hc, hd⟩
-        exact ⟨hI', hcomp s' hc, fun _ => hd, fun hn => absurd h1 hn⟩
+        exact ⟨hI', hcomp s' hc, fun _ => hd, fun hn => absurd h1 hn, fun _ _ hn => absurd h1 hn⟩
       · rw [if_neg h1]
         by_cases h2 : bw = true
         · rw [if_pos h2]
@@ -137,12 +143,24 @@ theorem complete_spec {exo} {h : Hints} {s : State} {tid : Nat} {r : Resp} {bw :
             rw [show detSt s t = (detachW s (preT t)).setTask { preT t with worker := none } from rfl,
               completeRetry_setTask _ _ _ _ _ _ rfl] at this
             refine wp_mono this ?_
-            intro s' ⟨hI', hc, hn1, hn2⟩
-            refine ⟨hI', hcomp s' hc, ?_, fun _ => ⟨hn1.trans hntD.1, hn2.trans hntD.2⟩⟩
-            intro hh; rcases hh with hh | hh | hh
-            · rw [h2] at hh; cases hh
-            · rw [h3] at hh; cases hh
-            · exact absurd hh h1
+            intro s' ⟨hI', hc, hn1, hn2, t', a1, a2, a3, a4⟩
+            refine ⟨hI', hcomp s' hc, ?_, fun _ => ⟨hn1.trans hntD.1, hn2.trans hntD.2⟩, ?_⟩
+            · intro hh; rcases hh with hh | hh | hh
+              · rw [h2] at hh; cases hh
+              · rw [h3] at hh; cases hh
+              · exact absurd hh h1
+            · intro _ _ _ t1 ht1 _
+              cases ht1
+              have hnlD : (detSt s t).nextLearner = s.nextLearner := by
+                obtain ⟨ws, ts, he⟩ := hDP.same; rw [he]
+              have hls : largestScq (detSt s t) ({ preT t with worker := none } : Task).scq =
+                  largestScq s t.scq := by
+                have hscq : ({ preT t with worker := none } : Task).scq = t.scq := by
+                  unfold preT; split <;> rfl
+                rw [hscq]
+                obtain ⟨ws, ts, he⟩ := hDP.same
+                rw [he]; rfl
+              exact ⟨t', a1, a2.trans (congrArg some hnlD), a3.trans hls, a4⟩
           · rw [if_neg h3]
             obtain ⟨s', he, hI', hc, hd, hn1, hn2⟩ := finBranch_spec (e := .learnerFailed l (r.code = cDeadlineExceeded) none)
               hID h0 hrp rfl hqp hlp (Or.inr ⟨_, rfl⟩) r
@@ -150,7 +168,8 @@ theorem complete_spec {exo} {h : Hints} {s : State} {tid : Nat} {r : Resp} {bw :
               { preT t with worker := none } { ({ preT t with worker := none } : Task) with learner := none } r rfl).symm.trans he
             refine wp_congr_ok (a := s') ?_ ?_
             · exact he'
-            · exact ⟨hI', hcomp s' hc, fun _ => hd, fun _ => ⟨hn1.trans hntD.1, hn2.trans hntD.2⟩⟩
+            · exact ⟨hI', hcomp s' hc, fun _ => hd, fun _ => ⟨hn1.trans hntD.1, hn2.trans hntD.2⟩,
+                fun _ hh => absurd hh h3⟩
         · rw [if_neg h2]
           obtain ⟨s', he, hI', hc, hd, hn1, hn2⟩ := finBranch_spec (e := .learnerAbandoned l)
             hID h0 hrp rfl hqp hlp (Or.inl rfl) r
@@ -158,6 +177,14 @@ theorem complete_spec {exo} {h : Hints} {s : State} {tid : Nat} {r : Resp} {bw :
             { preT t with worker := none } { ({ preT t with worker := none } : Task) with learner := none } r rfl).symm.trans he
           refine wp_congr_ok (a := s') ?_ ?_
           · exact he'
-          · exact ⟨hI', hcomp s' hc, fun _ => hd, fun _ => ⟨hn1.trans hntD.1, hn2.trans hntD.2⟩⟩
+          · exact ⟨hI', hcomp s' hc, fun _ => hd, fun _ => ⟨hn1.trans hntD.1, hn2.trans hntD.2⟩,
+              fun hh => absurd hh h2⟩
+
+theorem complete_spec {exo} {h : Hints} {s : State} {tid : Nat} {r : Resp} {bw : Bool}
+    (hI : InvX (fun _ => False) exo s) (hex : (alookup tid s.tasks).isSome = true) :
+    wp (complete h s tid r bw) (fun s' => InvX (fun _ => False) exo s' ∧ CompPost s tid s' ∧
+      ((bw = false ∨ h.retry = false ∨ (r.code = cOK ∧ r.exit = 0)) → TDone s' tid) ∧
+      (¬ (r.code = cOK ∧ r.exit = 0) → s'.nextTask = s.nextTask ∧ s'.nextOp = s.nextOp)) :=
+  wp_mono (complete_spec' hI hex) (fun _ h => ⟨h.1, h.2.1, h.2.2.1, h.2.2.2.1⟩)
 
 end BbRe.Lemmas.SchedInv
